@@ -277,6 +277,39 @@ def fingerprints(fn, wanted=None):
   return {k: sorted(v) for k, v in fp.items()}
 
 
+def body_fingerprint(fn):
+  """statements of the function with every local, parameter and the
+  function's own name anonymous: the same for a function that was renamed or
+  moved (nested <-> module level)."""
+  ps = params(fn)
+  pidx = {p: i for i, p in enumerate(ps)}
+  locs = set(bound_names(fn))
+  out = []
+  for kind, node in _headers(fn):
+    names, shadowed = _names(node)
+    saved = [(x, x.id) for x in names] + [(x, x.id) for x in shadowed]
+    sh = set(map(id, shadowed))
+    try:
+      for x, orig in saved:
+        if id(x) in sh:
+          x.id = 'C__'
+        elif orig in locs:
+          x.id = 'L__'
+        elif orig in pidx:
+          x.id = 'P__'
+        elif orig == fn.name:
+          x.id = 'SELF__'
+      try:
+        text = kind + ':' + ast.unparse(node)
+      except Exception:
+        text = kind + ':' + ast.dump(node)
+      out.append(_h(text))
+    finally:
+      for x, orig in saved:
+        x.id = orig
+  return sorted(out)
+
+
 def similarity(a, b):
   ca, cb = collections.Counter(a), collections.Counter(b)
   inter = sum((ca & cb).values())
@@ -362,6 +395,38 @@ def reference():
   return _ref_cache
 
 
+def moved_functions(relpath, tree, notes=None):
+  """{reference name: present name} for functions of the reference that are
+  gone, matched with functions the reference does not know by what their
+  bodies do (rename / move between nesting levels).  Cached on the tree."""
+  if getattr(tree, '_moved', None) is not None:
+    return tree._moved
+  ref = reference().get(relpath) or {}
+  fns = functions(tree)
+  moved = {}
+  gone = [q for q in ref if q not in fns and ref[q].get('body')]
+  fresh = [q for q in fns if q not in ref]
+  if gone and fresh:
+    fps = {q: body_fingerprint(fns[q]) for q in fresh}
+    pairs = []
+    for g in gone:
+      for f in fresh:
+        sim = similarity(ref[g]['body'], fps[f])
+        if sim >= 0.5:
+          pairs.append((-sim, g, f))
+    pairs.sort()
+    used = set()
+    for _, g, f in pairs:
+      if g in moved or f in used:
+        continue
+      moved[g] = f
+      used.add(f)
+      if notes is not None:
+        notes.append('%s: function %s is the one the rules call %s' % (relpath, f, g))
+  tree._moved = moved
+  return moved
+
+
 def align(relpath, tree, notes=None):
   """rename locals / parameters of the functions of `tree` back to the names of
   the reference where they can be identified.  Returns the identifications."""
@@ -370,8 +435,9 @@ def align(relpath, tree, notes=None):
   if not ref:
     return done
   fns = functions(tree)
+  moved = moved_functions(relpath, tree, done)
   for q, r in ref.items():
-    fn = fns.get(q)
+    fn = fns.get(moved.get(q, q))
     if fn is None:
       continue
     cur_params = params(fn)
@@ -426,6 +492,7 @@ def build_reference(root, relpaths):
     for q, fn in functions(tree).items():
       locs = bound_names(fn)
       fp = fingerprints(fn)
-      per[q] = dict(params=params(fn), locals={n: fp.get(n, []) for n in locs})
+      per[q] = dict(params=params(fn), locals={n: fp.get(n, []) for n in locs},
+                    body=body_fingerprint(fn))
     out[rel] = per
   return out
